@@ -1,2 +1,184 @@
-(* Properties/C20.v — property theorems only. (stub) *)
+(* Properties/C20.v — Substitution matrices are built faithfully from tables and
+   by mirroring.  Only statements; every proof is [exact <lemma>].
+
+   Model: Model/Smtext.v (ReadNCBI over bufio.Scanner lines with its 64 KiB line
+   limit, the regexp `\S+`, extractSingleChar; Symmetrical; the sorted entry list
+   GoString prints).  Scores are arbitrary float64 values, identified by their
+   canonical text ([F]); strconv.ParseFloat enters as the oracle [o]: the
+   layouts say, token by token, what ParseFloat answers ([ScoreTok]).
+   The text rendering of GoString (%q, %v, go/format) is fmt's and is trusted;
+   the correspondence harness parses it back.                                  *)
+From Coq Require Import Permutation Sorted.
 From Bio Require Import Base.
+From Bio.Model Require Import Smtext.
+From Bio.Spec Require Import SmtextSpec.
+From Bio.Proofs Require Import SmtextProofs SmtextProofsB SmtextProofsC.
+
+(* ReadNCBI recovers exactly the table, for every layout: any runs of blanks
+   (SP, TAB, FF, CR) before, between and after the tokens, LF or CRLF, empty and
+   '#' lines anywhere, whitespace-only lines before the column labels, a final
+   newline or none, rows and columns in any order, rectangular tables, labels
+   any non-space byte, '*' -> 255.  (A line whose first byte is '#' is a
+   comment, so a label '#' needs a blank before it: [LineOf].)                 *)
+Theorem C20_read_ncbi_exact : forall o T L,
+  rect T -> TableLayout o T L -> read_ncbi o L TEOF = Ok (matrix_of T).
+Proof. exact read_ncbi_exact. Qed.
+Print Assumptions C20_read_ncbi_exact.
+
+(* ... and [matrix_of T] holds exactly the (row, column) -> score pairs of T
+   when the row labels and the column labels are distinct. *)
+Theorem C20_matrix_of_table : forall T, rect T ->
+  NoDup (map lab (t_cols T)) -> NoDup (map (fun r => lab (fst r)) (t_rows T)) ->
+  keys_unique (matrix_of T)
+  /\ forall k x, mlookup k (matrix_of T) = Some x <-> In (k, x) (pairs T).
+Proof. exact matrix_of_table. Qed.
+Print Assumptions C20_matrix_of_table.
+
+(* A corrupted row — wrong number of values, multi-character label, non-numeric
+   score (or a line beyond the Scanner's limit) — after any number of good rows
+   gives an error, whatever follows and however the stream ends: never a matrix. *)
+Theorem C20_read_ncbi_rejects : forall o T pre hdr body bad rest nl t,
+  rect T ->
+  Forall PreLine pre -> HeaderLine (t_cols T) hdr -> Body o (t_rows T) body ->
+  BadRowLine o (length (t_cols T)) bad -> Forall nolf rest ->
+  read_ncbi o (join_lines (pre ++ hdr :: body ++ bad :: rest) nl) t = Err.
+Proof. exact read_ncbi_rejects_row. Qed.
+Print Assumptions C20_read_ncbi_rejects.
+
+(* A multi-character column label is rejected. *)
+Theorem C20_read_ncbi_rejects_header : forall o pre bad rest nl t,
+  Forall PreLine pre -> BadHeaderLine bad -> Forall nolf rest ->
+  read_ncbi o (join_lines (pre ++ bad :: rest) nl) t = Err.
+Proof. exact read_ncbi_rejects_header. Qed.
+Print Assumptions C20_read_ncbi_rejects_header.
+
+(* No input makes ReadNCBI panic, and a read fault never yields a matrix. *)
+Theorem C20_read_ncbi_total : forall o s t, read_ncbi o s t <> Panic.
+Proof. exact read_ncbi_total. Qed.
+Print Assumptions C20_read_ncbi_total.
+
+Theorem C20_read_ncbi_fault : forall o s, read_ncbi o s TErr = Err.
+Proof. exact read_ncbi_fault_any. Qed.
+Print Assumptions C20_read_ncbi_fault.
+
+(* Symmetrical (the list order of m stands for Go's map iteration order, so the
+   statement holds for every order): it panics exactly when two mirrored pairs
+   carry different scores; otherwise the result is a map in which every pair is
+   an original pair or a mirror image with that pair's score — nothing else —
+   and every original pair and its mirror image are present with the original
+   score (when both a pair and its mirror are present, with the score of either:
+   they are == as floats, i.e. identical up to the sign of zero).  The receiver
+   is unchanged by purity (the harness checks it on the implementation).      *)
+Theorem C20_symmetrical_exact : forall m, keys_unique m ->
+  (symmetrical m = Panic <-> conflict m)
+  /\ symmetrical m <> Err
+  /\ forall r, symmetrical m = Ok r ->
+       keys_unique r
+       /\ (forall k y, mlookup k r = Some y ->
+             mlookup k m = Some y \/ mlookup (flip k) m = Some y)
+       /\ (forall k x, mlookup k m = Some x ->
+             (exists y, mlookup k r = Some y /\ original_score m (flip k) x y)
+             /\ (exists y, mlookup (flip k) r = Some y /\ original_score m (flip k) x y)).
+Proof. exact symmetrical_exact. Qed.
+Print Assumptions C20_symmetrical_exact.
+
+(* GoString lists every pair exactly once, with its score, in strictly
+   ascending key order. *)
+Theorem C20_go_string_sorted_complete : forall m, keys_unique m ->
+  StronglySorted (fun e1 e2 => key_lt (fst e1) (fst e2)) (go_string_entries m)
+  /\ Permutation m (go_string_entries m).
+Proof. exact go_string_sorted_complete. Qed.
+Print Assumptions C20_go_string_sorted_complete.
+
+(* ---- non-vacuity ------------------------------------------------------------------ *)
+(* The table          A     *            laid out as   "# c\r\n"
+                  B   1   -2.5                          "\n"
+                  *  0.25   7                           " \tA *\r\n"
+                                                        "B 1 -2.5 \n"
+                                                        "#x\n"
+                                                        "*\t0x1p-2  7"       *)
+Definition ex_o : foracle :=
+  {| f_parse := [ ([49], [49]); ([45;50;46;53], [45;50;46;53]);
+                  ([48;120;49;112;45;50], [48;46;50;53]); ([55], [55]) ];
+     f_fmt := [] |}.
+Definition ex_T : table :=
+  {| t_cols := [65; 42];
+     t_rows := [ (66, [[49]; [45;50;46;53]]); (42, [[48;46;50;53]; [55]]) ] |}.
+Definition ex_pre : list bytes := [[35;32;99;13]; []].
+Definition ex_hdr : bytes := [32;9;65;32;42;13].
+Definition ex_body : list bytes :=
+  [ [66;32;49;32;45;50;46;53;32]; [35;120]; [42;9;48;120;49;112;45;50;32;32;55] ].
+Definition ex_L : bytes :=
+  [35;32;99;13;10; 10; 32;9;65;32;42;13;10; 66;32;49;32;45;50;46;53;32;10; 35;120;10;
+   42;9;48;120;49;112;45;50;32;32;55].
+
+Ltac ex_lws := repeat (apply Forall_cons || apply Forall_nil); unfold lws; auto 6.
+Ltac ex_token := split; [discriminate | repeat constructor].
+Ltac ex_short := unfold short; vm_compute; reflexivity.
+
+Example C20_example_layout : rect ex_T /\ TableLayout ex_o ex_T ex_L.
+Proof.
+  split.
+  - repeat constructor.
+  - change ex_L with (join_lines (ex_pre ++ ex_hdr :: ex_body) false).
+    constructor.
+    + constructor; [|constructor; [|constructor]].
+      * left. split; [|ex_short]. right; right. exists [32;99;13]. split; [reflexivity|].
+        repeat constructor; discriminate.
+      * left. split; [left; reflexivity | ex_short].
+    + split; [discriminate | split; [repeat constructor|]].
+      exists [32;9], [65;32;42;13]. split; [reflexivity|]. split; [ex_lws|].
+      split; [|split; [discriminate | split; [discriminate | ex_short]]].
+      apply (Toks_cons [65] [[42]] [32] [42;13]); [ex_token | ex_lws | discriminate |].
+      apply (Toks_cons [42] [] [13] []); [ex_token | ex_lws | intros H; contradiction | constructor].
+    + apply (Body_row ex_o 66 [[49]; [45;50;46;53]] [[49]; [45;50;46;53]]).
+      * reflexivity.
+      * repeat constructor; discriminate.
+      * exists [], [66;32;49;32;45;50;46;53;32]. split; [reflexivity|]. split; [constructor|].
+        split; [|split; [discriminate | split; [discriminate | ex_short]]].
+        apply (Toks_cons [66] [[49]; [45;50;46;53]] [32] [49;32;45;50;46;53;32]);
+          [ex_token | ex_lws | discriminate |].
+        apply (Toks_cons [49] [[45;50;46;53]] [32] [45;50;46;53;32]);
+          [ex_token | ex_lws | discriminate |].
+        apply (Toks_cons [45;50;46;53] [] [32] []);
+          [ex_token | ex_lws | intros H; contradiction | constructor].
+      * apply Body_skip.
+        { split; [|ex_short]. right; right. exists [120]. split; [reflexivity|].
+          repeat constructor; discriminate. }
+        apply (Body_row ex_o 42 [[48;46;50;53]; [55]] [[48;120;49;112;45;50]; [55]]).
+        -- reflexivity.
+        -- repeat constructor; discriminate.
+        -- exists [], [42;9;48;120;49;112;45;50;32;32;55]. split; [reflexivity|]. split; [constructor|].
+           split; [|split; [discriminate | split; [discriminate | ex_short]]].
+           apply (Toks_cons [42] [[48;120;49;112;45;50]; [55]] [9] [48;120;49;112;45;50;32;32;55]);
+             [ex_token | ex_lws | discriminate |].
+           apply (Toks_cons [48;120;49;112;45;50] [[55]] [32;32] [55]);
+             [ex_token | ex_lws | discriminate |].
+           apply (Toks_cons [55] [] [] []);
+             [ex_token | constructor | intros H; contradiction | constructor].
+        -- constructor.
+Qed.
+
+Example C20_example_values :
+  read_ncbi ex_o ex_L TEOF
+    = Ok [ ((66, 65), [49]); ((66, 255), [45;50;46;53]);
+           ((255, 65), [48;46;50;53]); ((255, 255), [55]) ]
+  /\ matrix_of ex_T = [ ((66, 65), [49]); ((66, 255), [45;50;46;53]);
+                        ((255, 65), [48;46;50;53]); ((255, 255), [55]) ]
+  (* a value too many, a non-numeric score, a two-byte label: "A\nB 1 7", "A\nB x", "A\nBB 1" *)
+  /\ read_ncbi ex_o [65;10;66;32;49;32;55] TEOF = Err
+  /\ read_ncbi ex_o [65;10;66;32;120] TEOF = Err
+  /\ read_ncbi ex_o [65;10;66;66;32;49] TEOF = Err
+  (* mirroring {a,b}:1 {b,b}:7; a conflict {a,b}:1 {b,a}:7; 0 and -0 do not conflict *)
+  /\ symmetrical [((97, 98), [49]); ((98, 98), [55])]
+     = Ok [((97, 98), [49]); ((98, 97), [49]); ((98, 98), [55])]
+  /\ symmetrical [((97, 98), [49]); ((98, 97), [55])] = Panic
+  /\ conflict [((97, 98), [49]); ((98, 97), [55])]
+  /\ symmetrical [((97, 98), [48]); ((98, 97), [45; 48])]
+     = Ok [((97, 98), [45; 48]); ((98, 97), [45; 48])]   (* the pair visited last wins *)
+  /\ go_string_entries [((98, 97), [49]); ((97, 255), [55]); ((97, 98), [50])]
+     = [((97, 98), [50]); ((97, 255), [55]); ((98, 97), [49])].
+Proof.
+  vm_compute. repeat split.
+  exists 97, 98, [49], [55]. repeat split; discriminate.
+Qed.
